@@ -17,7 +17,7 @@
 (* command may depend on it, so the closed system must make progress        *)
 (* without it (deadlock freedom + liveness under weak fairness).            *)
 (***************************************************************************)
-EXTENDS Naturals, Sequences, FiniteSets, TLC
+EXTENDS Naturals, Sequences, FiniteSets, TLC, SchedRules
 
 CONSTANTS
     Mbox,       \* mailbox names
@@ -48,33 +48,11 @@ MbOf(c) == Phase(c).mb
 KindOf(c) == Phase(c).k
 LastPhase(c) == ph[c] = Len(Cmds[c].phases)
 
-Blocking == {"APPEND", "CHECK", "CLOSE", "DELETE", "EXPUNGE", "MOVE", "RENAME"}   \* CONFLICTING_COMMANDS
+Rec(c) == [k |-> KindOf(c), peek |-> Cmds[c].peek, set |-> Cmds[c].set]
 Overlap(c, d) == Cmds[c].set \cap Cmds[d].set # {}
 
-(* mbox.would_conflict, transcribed *)
-Conflicts(c, E, m) ==
-    LET k == KindOf(c)
-        live == E
-    IN
-    IF live = {} THEN FALSE
-    ELSE IF \E d \in live : KindOf(d) \in Blocking THEN TRUE
-    ELSE IF k \in {"APPEND", "CHECK", "DELETE", "MOVE", "RENAME"} THEN TRUE
-    ELSE IF k \in {"CLOSE", "EXPUNGE"} THEN HasDeleted[m]
-    ELSE IF k = "COPY" THEN
-        \E d \in live : \/ (KindOf(d) = "STORE" /\ Overlap(c, d))
-                        \/ (KindOf(d) = "FETCH" /\ ~Cmds[d].peek /\ Overlap(c, d))
-    ELSE IF k = "FETCH" THEN
-        IF ~Cmds[c].peek
-        THEN \E d \in live : \/ KindOf(d) = "SEARCH"
-                             \/ (KindOf(d) \in {"COPY", "FETCH", "STORE"} /\ Overlap(c, d))
-        ELSE \E d \in live : KindOf(d) = "STORE" /\ Overlap(c, d)
-    ELSE IF k \in {"NOOP", "SELECT", "STATUS", "EXAMINE"} THEN FALSE
-    ELSE IF k = "SEARCH" THEN
-        \E d \in live : (KindOf(d) = "FETCH" /\ ~Cmds[d].peek) \/ KindOf(d) = "STORE"
-    ELSE IF k = "STORE" THEN
-        \E d \in live : \/ KindOf(d) = "SEARCH"
-                        \/ (KindOf(d) \in {"STORE", "FETCH", "COPY"} /\ Overlap(c, d))
-    ELSE TRUE
+(* mbox.would_conflict, transcribed (spec/SchedRules.tla) *)
+Conflicts(c, E, m) == ConflictsRec(Rec(c), {Rec(d) : d \in E}, HasDeleted[m])
 
 Init ==
     /\ pc = [c \in Cmd |-> "new"]
